@@ -141,8 +141,19 @@ def gen_plan(prop, tier, rng, i):
     for w in range(nwrites):
         form = rng.choice(["single", "single", "dict", "list"])
         cnt = 1 if form == "single" else rng.randrange(1, 6)
+        if prop in ("C13", "C20") and model_idx and min(model_idx) > 3 and rng.random() < 0.15:
+            # an index below everything written so far (the write API does not ask for ascending calls)
+            lowk = max(0, min(model_idx) - rng.choice([1, 2, max(1, (cfg.file_s * cfg.n) // cfg.d),
+                                                        3 * max(1, (cfg.file_s * cfg.n) // cfg.d) + 1]))
+            if lowk not in model_idx:
+                ops.append({"op": "mw", "form": "single", "samples": [lowk], "data": _gen_sample_dict(rng, fields),
+                            "scalar_sample": True})
+                model_idx.append(lowk)
         idxs = _gen_indices(rng, cfg, cur, cnt, small)
         cur = idxs[-1]
+        if prop == "C13" and form == "list" and cnt >= 3 and rng.random() < 0.5:
+            # one call carrying indices that are not in ascending order
+            idxs = idxs[:1] + idxs[2:] + idxs[1:2] if rng.random() < 0.5 else [idxs[0]] + idxs[:0:-1]
         if form == "single":
             ops.append({"op": "mw", "form": "single", "samples": idxs, "data": _gen_sample_dict(rng, fields),
                         "scalar_sample": rng.random() < 0.5})
@@ -222,7 +233,7 @@ def _gen_query(rng, cfg, idxs, nreaders, fields, with_rf):
         return {"op": "mfields", "r": rd}
     if r < 0.94 or not with_rf:
         return {"op": "lsdrf", "flags": [rng.random() < 0.7, rng.random() < 0.7, rng.random() < 0.7, rng.random() < 0.7]}
-    return {"op": rng.choice(["rfread", "rfmd", "rfbounds"])}
+    return {"op": rng.choice(["rfread", "rfmd", "rfbounds", "rfblocks", "rfprops", "rflastwrite", "rfvector"])}
 
 
 def shrink_candidates(plan):
@@ -427,7 +438,7 @@ def run_plan(prop, plan):
                 res.fault("clock_jump")
             elif o == "rfw":
                 _rf_write(plan, rf, chdir, op, res, v)
-            elif o in ("rfread", "rfmd", "rfbounds"):
+            elif o in ("rfread", "rfmd", "rfbounds", "rfblocks", "rfprops", "rflastwrite", "rfvector"):
                 _rf_query(o, rf, tree, model, readonly, v, res)
             elif o == "lsdrf":
                 fl = op["flags"]
@@ -537,6 +548,11 @@ def _md_query(op, rd, model, burnt, readonly, v, res):
                   method="flat")
     elif o == "mfields":
         out, exc = readonly("get_fields", rd.get_fields)
+        # a reader constructed after the first write knows the (top-level) field names
+        if exc is None and out is not None and model.samples:
+            want = sorted(set(k for smp in model.samples.values() for k in smp))
+            if sorted(out) != want:
+                v("C12", "field_names", "get_fields() %s, written top-level fields %s" % (sorted(out), want))
 
 
 def _rf_write(plan, rf, chdir, op, res, v):
@@ -581,6 +597,18 @@ def _rf_query(o, rf, tree, mdmodel, readonly, v, res):
     elif o == "rfread":
         lo, hi = rf["model"].bounds_written()
         readonly("DigitalRFReader.read", lambda: rd.read(lo, hi, c.channel))
+    elif o == "rfblocks":
+        lo, hi = rf["model"].bounds_written()
+        readonly("DigitalRFReader.get_continuous_blocks", lambda: rd.get_continuous_blocks(lo, hi, c.channel))
+    elif o == "rfprops":
+        lo, hi = rf["model"].bounds_written()
+        readonly("DigitalRFReader.get_properties", lambda: rd.get_properties(c.channel, sample=lo))
+        readonly("DigitalRFReader.get_properties", lambda: rd.get_properties(c.channel))
+    elif o == "rflastwrite":
+        readonly("DigitalRFReader.get_last_write", lambda: rd.get_last_write(c.channel))
+    elif o == "rfvector":
+        lo, hi = rf["model"].bounds_written()
+        readonly("DigitalRFReader.read_vector", lambda: rd.read_vector(lo, 1, c.channel))
     else:
         mb = mdmodel.bounds()
         if mb:
